@@ -31,7 +31,7 @@ def main(argv):
             ok = bool(isa.uarch) and bool(isa.mn_sem)
         except Exception:
             ok = False
-        pool = c10.build_pool(isa) if ok else {"isa": name, "blocks": [], "flagged": [], "sensitive": [],
+        pool = c10.build_pool(isa) if ok else {"isa": name, "blocks": [], "flagged": [], "flagged_dynamically": [], "sensitive": [],
                                                "flagregs": [], "slc_base": {}}
         with open(argv[2], "w") as f:
             json.dump(pool, f)
